@@ -345,13 +345,23 @@ class Graph:
         """bodies reachable in the call graph from roots (list of Body)"""
         seen = {}
         stack = list(roots)
+        root_ids = {r.id for r in roots}
         for r in roots:
             seen[r.id] = r
         while stack:
             b = stack.pop()
-            nxt = [cb for _, cb, k in self.callees(b) if k in kinds]
-            if include_children:
-                # an async fn's body is its coroutine child
+            nxt = []
+            for _c, cb, k in self.callees(b):
+                if k not in kinds:
+                    continue
+                if k == "call" and cb.kind == "fn" and cb.ty(0).startswith("impl core::future::future::Future"):
+                    # calling an async fn only builds its future; its body is reached through the poll /
+                    # combinator edge. The fn item itself (argument evaluation) is still visited.
+                    nxt.append(cb)
+                    continue
+                nxt.append(cb)
+            if include_children and b.id in root_ids:
+                # a root given as `async fn`: its body is the coroutine child
                 nxt += [k for k in self.F.children.get(b.id, []) if k.kind == "coroutine" and b.kind == "fn"
                         and b.ty(0).startswith("impl core::future::future::Future")]
             for cb in nxt:
